@@ -16,7 +16,20 @@ def plan(prop, tier, seed):
     return [{"kind": "rv", "n": 120 if q else 4000, "shard": i} for i in range(8 if q else 16)] + [{"kind": "toy", "n": 120 if q else 3000, "shard": i} for i in range(4 if q else 8)] + [{"kind": "directed", "shard": 0}]
 
 
+def _val(rng, a, w):
+    """stored values: random, or made of the bytes a sparse / memoising store treats specially (0x00 lanes, all ones,
+    sign bits), or coinciding with the address / the access width"""
+    k = rng.random()
+    if k < 0.6:
+        return rng.getrandbits(8 * w)
+    if k < 0.85:
+        return int.from_bytes(bytes(rng.choice([0, 0, 0xFF, 0x80, 0x7F, 1, rng.getrandbits(8)]) for _ in range(w)), "little")
+    return rng.choice([0, a, a >> 2, w, (1 << (8 * w)) - 1, 1 << (8 * w - 1)]) & ((1 << (8 * w)) - 1)
+
+
 def gen_rv(rng, nops):
+    if rng.random() < 0.03:
+        nops *= 8  # more than 512 accesses on one object
     anchors = [0x4000, 0x4000, 0x4010, 0x1_0000_0000, 0x1_0000_0000, 0, 0x8000_0000, rng.randrange(0x4000, 1 << 32)]
     ops = []
     for _ in range(nops):
@@ -27,7 +40,7 @@ def gen_rv(rng, nops):
         elif k < 0.2:
             a += (1 << 32) * rng.choice([1, 2])
         w = rng.choice([1, 2, 4, 8])
-        ops.append(["w" if rng.random() < 0.5 else "r", a, w, rng.getrandbits(8 * w)])
+        ops.append(["w" if rng.random() < 0.5 else "r", a, w, _val(rng, a, w)])
         _spell(rng, ops[-1])
         if rng.random() < 0.12:
             ops.append(list(ops[-1]))  # exactly the same access again (also after a rejected one)
@@ -61,7 +74,7 @@ def gen_full(rng, nops):
         if rng.random() < 0.15:
             a += top * rng.choice([1, -1, 2])
         w = rng.choice([1, 2, 4, 8])
-        ops.append(["w" if rng.random() < 0.5 else "r", a, w, rng.getrandbits(8 * w)])
+        ops.append(["w" if rng.random() < 0.5 else "r", a, w, _val(rng, a, w)])
         _spell(rng, ops[-1])
         if rng.random() < 0.12:
             ops.append(list(ops[-1]))
@@ -75,7 +88,7 @@ def gen_toy(rng, nops):
         if rng.random() < 0.05:
             a += rng.choice([1 << 12, 1 << 16, -(1 << 12)])
         w = rng.choice([2, 2, 4, 8])
-        ops.append(["w" if rng.random() < 0.5 else "r", a, w, rng.getrandbits(8 * w)])
+        ops.append(["w" if rng.random() < 0.5 else "r", a, w, _val(rng, a, w)])
         _spell(rng, ops[-1])
         if rng.random() < 0.12:
             ops.append(list(ops[-1]))
